@@ -287,7 +287,10 @@ func main() {
 					a, b, cc := ssc[int(i)/(n*n)], ssc[int(i)/n%n], ssc[int(i)%n]
 					ba, bb, bc := getBase(a.h, a.hf, a.idx, c.Seed), getBase(b.h, b.hf, b.idx, c.Seed), getBase(cc.h, cc.hf, cc.idx, c.Seed)
 					same := a == b && b == cc
-					compare(c, i, "cross-matrix", fmt.Sprintf("msg of %v, sig of %v, pk of %v", a, b, cc), ba.msg, bb.sig, bc.pk, !same && !(b == cc && string(ba.msg) == string(bb.msg)))
+					// valid exactly when message and signature come from the same base and the public key is that KEY's
+					// (two bases of the same (height, hash) share the key and differ only in the index)
+					valid := a == b && b.h == cc.h && b.hf == cc.hf
+					compare(c, i, "cross-matrix", fmt.Sprintf("msg of %v, sig of %v, pk of %v", a, b, cc), ba.msg, bb.sig, bc.pk, !valid)
 					if same {
 						c.Nontrivial(1)
 						if libVerify(ba.msg, bb.sig, bc.pk, 0) != "true" {
